@@ -113,7 +113,7 @@ def run_case(case, seed):
         cfgs, complete = D.enum_configs(els, b['deviation_bound_beyond'], b['complete_lattice_cap'])
     names = G.layer_names(prog)
     for cfg in cfgs:
-        D.apply_config(els, cfg, rep=0)
+        D.apply_config(els, cfg, rep=0, via_data=res['states'] % 2 == 1)
         res['states'] += 1
         res['transitions'] += len(cfg)
         res['evals'] += 1
